@@ -73,6 +73,10 @@ type Behaviour struct {
 	// sending its own version / verack) and behaves as configured on every
 	// later connection (a node that is restarting, or has no free slot).
 	DropHandshakes int `json:"drop_handshakes,omitempty"`
+	// HoldVerack: the node answers the client's version message with its own
+	// version but sends the verack only when ReleaseVerack is called (the
+	// client's side of the handshake stays unfinished until then).
+	HoldVerack bool `json:"hold_verack,omitempty"`
 }
 
 func has(l []string, s string) bool {
@@ -100,6 +104,10 @@ type Node struct {
 	txs     map[chainhash.Hash]int // transactions received
 	lies    map[*Chain]*lieData
 	closed  bool
+	// HoldVerack: closed by ReleaseVerack; versionSent counts connections
+	// that got our version message and wait for the verack
+	verack      chan struct{}
+	versionSent int
 }
 
 type nodeConn struct {
@@ -141,6 +149,42 @@ func (n *Node) Received() map[string]int {
 
 // Dials returns how many connection attempts reached this node.
 func (n *Node) Dials() int { n.mu.Lock(); defer n.mu.Unlock(); return n.dials }
+
+// ReleaseVerack lets every connection held by HoldVerack (now and later) go on.
+func (n *Node) ReleaseVerack() {
+	n.mu.Lock()
+	defer n.mu.Unlock()
+	if n.verack == nil {
+		n.verack = make(chan struct{})
+	}
+	select {
+	case <-n.verack:
+	default:
+		close(n.verack)
+	}
+}
+
+// AwaitingVerack returns how many connections have been sent the node's
+// version message and are held before the verack.
+func (n *Node) AwaitingVerack() int { n.mu.Lock(); defer n.mu.Unlock(); return n.versionSent }
+
+// StopReading makes the node stop reading on every open connection while
+// keeping the connections open (a peer whose process hangs, or whose socket
+// receive buffer is never drained): the client can still write slack bytes to
+// each connection, then its writes block. The node still writes what its
+// serving goroutine had in hand. It returns the number of connections.
+func (n *Node) StopReading(slack int) int {
+	n.mu.Lock()
+	defer n.mu.Unlock()
+	k := 0
+	for c := range n.conns {
+		if bc, ok := c.c.(*bufConn); ok {
+			bc.StopReading(slack)
+			k++
+		}
+	}
+	return k
+}
 
 // Live returns the number of open connections.
 func (n *Node) Live() int { n.mu.Lock(); defer n.mu.Unlock(); return len(n.conns) }
@@ -347,6 +391,20 @@ func (n *Node) serve(k *nodeConn) {
 			v.ProtocolVersion = int32(pver)
 			_ = v.AddUserAgent("netsim", "0.0.1")
 			k.send(v)
+			if b.HoldVerack {
+				n.mu.Lock()
+				if n.verack == nil {
+					n.verack = make(chan struct{})
+				}
+				ch := n.verack
+				n.versionSent++
+				n.mu.Unlock()
+				select {
+				case <-ch:
+				case <-time.After(25 * time.Second):
+					return
+				}
+			}
 			k.send(wire.NewMsgVerAck())
 
 		case *wire.MsgPing:
